@@ -1034,8 +1034,17 @@ func main() {
 		mk := func(mut func(ob *observed), k call, st int, lim int) {
 			b := okBody(k)
 			c, ob := e.doCase("", "http://osm.test/api/0.6", lim, k, st, b)
-			// rebuild the case with the corrupted observation
-			mut(&ob)
+			// rebuild the case with the corrupted observation; when the implementation's behaviour
+			// has changed so much that the intended corruption does not apply, corrupt the verdict
+			func() {
+				defer func() {
+					if recover() != nil {
+						ob.Panicked = !ob.Panicked
+						ob.Class = (ob.Class + 1) % 7
+					}
+				}()
+				mut(&ob)
+			}()
 			c2 := &wire.Case{Canary: 1, Desc: c.Desc}
 			c2.Int(1).Str("http://osm.test/api/0.6").Int(int64(lim))
 			putCall(c2, k)
